@@ -614,7 +614,11 @@ def run(ctx):
                                              "fault": [task, m, occ]}, sample=(n % 97 == 0))
     ctx.note_space("single fault: target raises at occurrence 1..3 of each of 11 methods by each of 2 threads, "
                    "several random schedules each", n)
-    for workers in ([{"tests": 2}, {"tests": 2}], [{"tests": 1}, {"tests": 2}, {"tests": 1}]):
+    for workers in ([{"tests": 2}, {"tests": 2}], [{"tests": 1}, {"tests": 2}, {"tests": 1}],
+                    # a worker that lets a non-Exception escape (sys.exit() in a test), one whose runner breaks: the
+                    # forwarders' semaphore is free again and run() returns
+                    [{"tests": 2, "raise_at": 1, "raise_base": True}, {"tests": 2}],
+                    [{"tests": 2, "raise_at": 1}, {"tests": 1}, {"tests": 2, "raise_at": 0, "raise_base": True}]):
         for rep in range(ctx.scale(6, 200)):
             if ctx.mine():
                 ctx.execute("cts", {"kind": "cts", "workers": workers, "mode": rng.choice(["random", "pct"]),
